@@ -51,6 +51,20 @@ CHECKS = [
          "DESIGN.md section 5 C12", SIM + "version monitors on every delivered message plus model comparison"),
 ]
 
+CHECKS.append({
+    "property_id": "C14",
+    "quick_cmd": "./check C14 quick",
+    "thorough_cmd": "./check C14 thorough",
+    "evidence_file": "/verif/evidence/C14.json",
+    "replay_cmd_template": "./check --replay {path}",
+    "engine": "aldrin-sim",
+    "level_claimed": {"category": "exploration",
+        "text": "The real Packetizer (both input interfaces) is fed the concatenated frames in PRNG-sized pieces down to one byte; two real TokioTransports are joined by a simulated byte pipe whose every poll_read/poll_write/poll_flush outcome (size, Pending, bounded capacity, EOF at a byte offset also mid-frame, zero-length write, I/O error at the k-th operation) comes from the per-run PRNG while a seeded scheduler interleaves sender and receiver. Oracle: frames/messages out = in, in order, each only after its last byte was read; bytes handed to the I/O object are a prefix of the serialized frames; flush returns only after all earlier bytes were accepted and the I/O object's flush completed; EOF and zero-length writes surface as errors, never as a message.",
+        "design_ref": "DESIGN.md section 5 C14"},
+    "level_note": "Trusted: the simulated pipe (reliable ordered byte stream) and the oracle. Sampling of chunkings and I/O result sequences; frame sizes up to 140 KB (one >4 MiB frame per ~400 thorough runs); one direction per transport pair.",
+    "technique": "deterministic simulation with fault injection: scripted AsyncRead/AsyncWrite (short reads/writes, Pending, EOF, write-zero, I/O errors) under a seeded scheduler, history check frames-in = frames-out",
+})
+
 NA_PURE = "pure function of its input (no schedule, clock, fault, crash point or history for a simulator to search); input generation under a simulator's name would be fuzzing/property-based testing, a different technique family (DESIGN.md section 6)"
 
 NOT_APPLICABLE = [
